@@ -843,3 +843,21 @@ UNDECIDED += [
     # a look-ahead is outside the regular subset that is translated: agreement on the sample spellings is no proof
     ('u13-isint-regex-lookahead', ['C13'], [(A, _IS_INT, _is_int_regex('(?=.)' + _INT_EXACT))]),
 ]
+
+# functools.partial / lambda around the encoder: partial(f, *a, **k)(*b, **c) is f(*a, *b, **k, **c)
+_ENC_PARTIAL = ("            " + _ISA_OLD + "\n                *args, aq, rl = item.args()\n                encode_func = partial(encode_func, aq=aq, rl=rl)\n"
+                "            else:\n                args = item.args()\n            code = encode_func(*args)")
+_ENC_LAMBDA = ("            " + _ISA_OLD + "\n                *args, aq, rl = item.args()\n                call = lambda *ops: encode_func(*ops, aq=aq, rl=rl)\n"
+               "            else:\n                args = item.args()\n                call = encode_func\n            code = call(*args)")
+PRESERVING += [
+    ('p-pack-partial', None, [(A, _ENC_ARMS_OLD, _ENC_PARTIAL)]),
+    ('p-pack-partial-nested', ['C01', 'C02'], [(A, _ENC_ARMS_OLD, _ENC_PARTIAL.replace("partial(encode_func, aq=aq, rl=rl)", "partial(partial(encode_func, aq=aq), rl=rl)"))]),
+    ('p-pack-partial-direct', ['C01', 'C02'], [(A, _AQRL_OLD, "                *args, aq, rl = item.args()\n                code = partial(encode_func, aq=aq, rl=rl)(*args)")]),
+    ('p-pack-lambda', ['C01', 'C02'], [(A, _ENC_ARMS_OLD, _ENC_LAMBDA)]),
+]
+BREAKING += [
+    ('c01-pack-partial-kw-swap', ['C01'], [(A, _ENC_ARMS_OLD, _ENC_PARTIAL.replace("aq=aq, rl=rl", "aq=rl, rl=aq"))]),
+    ('c01-pack-partial-nested-swap', ['C01'], [(A, _ENC_ARMS_OLD, _ENC_PARTIAL.replace("partial(encode_func, aq=aq, rl=rl)", "partial(partial(encode_func, aq=rl), rl=aq)"))]),
+    ('c01-pack-lambda-kw-swap', ['C01'], [(A, _ENC_ARMS_OLD, _ENC_LAMBDA.replace("aq=aq, rl=rl", "aq=rl, rl=aq"))]),
+    ('c01-pack-partial-positional', ['C01'], [(A, _ENC_ARMS_OLD, _ENC_PARTIAL.replace("partial(encode_func, aq=aq, rl=rl)", "partial(encode_func, aq, rl)"))]),
+]
